@@ -61,6 +61,9 @@ type Config struct {
 	SchedSeed       int64  `json:"sched_seed"`
 	// NumDNS: number of configured DNS addresses; -1 = none (an empty, non-nil map), 0 = legacy (one or two, drawn from CfgSeed)
 	NumDNS int `json:"num_dns,omitempty"`
+	// PreHistory: some creators start with a long past (counter near a byte boundary, an old NFT
+	// still held): states that are reachable through built-in calls but too far away to walk to
+	PreHistory bool `json:"pre_history,omitempty"`
 }
 
 // Event is one step of a run; a replay file is a Config plus a list of Events.
@@ -168,6 +171,9 @@ type World struct {
 	// options
 	CheckCodec  bool
 	StopAtFirst bool
+	// StopProp: when set, a run only stops at a violation that speaks for this property; violations of
+	// other properties are recorded and the run goes on (their consequences may speak for this one)
+	StopProp string
 }
 
 // Tok returns the registry entry of a token.
@@ -184,6 +190,22 @@ func (w *World) logf(format string, a ...interface{}) {
 	if w.KeepLog {
 		w.Log = append(w.Log, fmt.Sprintf(format, a...))
 	}
+}
+
+// Stop says whether the run has found what it was looking for.
+func (w *World) Stop() bool {
+	if !w.StopAtFirst || len(w.Found) == 0 {
+		return false
+	}
+	if w.StopProp == "" {
+		return true
+	}
+	for _, f := range w.Found {
+		if f.V.Has(w.StopProp) {
+			return true
+		}
+	}
+	return false
 }
 
 func (w *World) violate(v spec.Violation) {
@@ -316,15 +338,24 @@ func (w *World) Run(m *Msg, fault []int) (*Exec, *spec.Verdict) {
 	// (linear in input + touched state, plus a quadratic term: the message encoder concatenates
 	// strings, which is quadratic in the input but not driven by a number taken from the arguments)
 	inLen := uint64(len(m.Data) + stateBytes(ex.Pre, m.Snd, m.Rcv))
-	bound := uint64(1<<20) + 256*inLen + inLen*inLen
+	bound := uint64(1<<20) + 256*inLen + 4*inLen*inLen
 	if ex.Alloc > bound {
 		w.violate(spec.Violation{Props: spec.P("C11"), Clause: "allocation", Detail: fmt.Sprintf("%s allocated %d bytes for an input of %d bytes (bound %d): data %q", ex.Func, ex.Alloc, len(m.Data), bound, m.Data)})
 	}
 	// a dependency failed during the call: it must not be reported as success (C17)
 	if ex.FaultHit && IsHardDep(fk) && ex.Succeeded() {
-		w.violate(spec.Violation{Props: spec.P("C17"), Clause: "swallowed-failure", Detail: fmt.Sprintf("%s returned Ok although %s call #%d failed (data %q)", ex.Func, DepNames[fk], fn, m.Data)})
+		props := spec.P("C17")
+		switch ex.Func {
+		case spec.FnESDTTransfer, spec.FnESDTNFTTransfer, spec.FnMultiTransfer:
+			props = append(props, "C01") // a lost write reported as success loses the tokens it carried
+		case spec.FnLocalMint, spec.FnLocalBurn, spec.FnBurn, spec.FnNFTCreate, spec.FnNFTAddQuantity, spec.FnNFTBurn, spec.FnWipe:
+			props = append(props, "C02")
+		case spec.FnCreateRoleTransfer:
+			props = append(props, "C07")
+		}
+		w.violate(spec.Violation{Props: props, Clause: "swallowed-failure", Detail: fmt.Sprintf("%s returned Ok although %s call #%d failed (data %q)", ex.Func, DepNames[fk], fn, m.Data)})
 	}
-	if !ex.Succeeded() || vd.MustFail != "" || len(w.foundSince(ex)) > 0 && w.StopAtFirst {
+	if !ex.Succeeded() || vd.MustFail != "" || w.Stop() {
 		return ex, vd
 	}
 	// success: ghost updates, wire checks, message emission
@@ -828,7 +859,7 @@ func (w *World) Deliver(id string, fault []int) bool {
 	} else if !ok && len(m.Carries) > 0 && m.Kind == KindRefund {
 		// a lost refund: conservation is broken unless the oracle already said why
 		if !ex.FaultHit {
-			w.violate(spec.Violation{Props: spec.P("C01"), Clause: "refund-refused", Detail: fmt.Sprintf("the refund %q to %x was refused: %v %s", m.Data, m.Rcv, ex.Err, ex.Panic)})
+			w.violate(spec.Violation{Props: spec.P("C01", "C02"), Clause: "refund-refused", Detail: fmt.Sprintf("the refund %q to %x was refused: %v %s", m.Data, m.Rcv, ex.Err, ex.Panic)})
 		} else {
 			// refund lost to an injected fault: the node would retry; keep it in flight
 			m.ID = m.ID + "r"
